@@ -46,6 +46,23 @@ NEEDS = {
  "C17-m2": ("learnable flag dropped from the fold key of tensor parameters", "fold=True, a learnable and a non-learnable tensor of equal shape in the same fold group"),
  "C20-m1": ("hmm(): emission layer of the last chain variable takes input_factories[-1]", "per-variable input_layer_kwargs (a list) and an ordering whose last element is not num_variables-1"),
  "C20-m2": ("LogicalCircuit.smooth(): literal table keyed with the opposite polarity flag", "enforce_smoothness and a variable added by smoothing that occurs in the formula with one polarity only"),
+ # round 2 (sub-agents told to avoid the code sites of round 1)
+ "C01-m3": ("consumer-count guard of the layer pattern matcher tests the wrong entry", "optimize=True and a product / sum layer with two consumers, one an arity-1 sum"),
+ "C01-m4": ("softmax / log-softmax nodes lose their axis when folded (config without dim)", "fold=True and a softmax parameter node with axis != -1"),
+ "C02-m3": ("log(softmax) fusion always normalises over the last axis", "optimize=True and LogParameter over SoftmaxParameter with axis != last"),
+ "C02-m4": ("fold key of input layers ignores hyperparameters not implied by shapes", "fold=True and binomial layers with different total_count, or integrate() of a circuit mixing embedding and categorical inputs"),
+ "C03-m3": ("product of two probs-parameterised categorical layers stays in probs space (integrates to 1)", "integrate(multiply(c1, c2)) with probs parameterisation in both operands"),
+ "C03-m4": ("constant-value layers memoise their value when gradients are disabled", "an integral circuit evaluated under no_grad, a parameter update, a second evaluation"),
+ "C04-m3": ("Gaussian product rule drops the second operand's log-partition when both have one", "a product whose two operands are themselves products of Gaussian circuits"),
+ "C04-m4": ("outer-product parameter node lays units out transposed", "multiply of two DIFFERENT embedding circuits with more than one unit"),
+ "C05-m3": ("derivative of a product layer moves the differentiated input to position 0", "Kronecker layers and a derivative w.r.t. a variable outside the first input"),
+ "C05-m4": ("folded parameter graphs: outputs collected in frontier order", "fold=True and polynomial inputs of different degrees, the higher degree first"),
+ "C06-m3": ("evidence layer caches its output", "an evidence circuit evaluated, a parameter update, a second evaluation"),
+ "C06-m4": ("concatenate takes each operand's sinks as its outputs", "an operand whose output layer also feeds another layer"),
+ "C07-m3": ("double-conjugation shortcut compares against the wrong enum", "conjugate applied to the result of differentiate"),
+ "C07-m4": ("conjugate re-lists product inputs in scope order", "a Kronecker layer whose inputs are not listed by increasing scope"),
+ "C10-m3": ("evidence layer caches its output by parameter version counters", "no_grad evaluation, reset_parameters() of the operand, no_grad evaluation"),
+ "C10-m4": ("integrate of a Gaussian layer with explicit log-partition copies instead of referencing it", "GaussianLayer with a learnable log_partition, integrate, then an update of the operand"),
 }
 DETECT = {}   # filled from check logs
 
@@ -61,9 +78,11 @@ def last_line(path):
 
 def main():
     rows = []
-    for d in sorted(glob.glob(os.path.join(SRC, "C*", "m*"))):
+    dirs = [(d, 0) for d in sorted(glob.glob(os.path.join(SRC, "C*", "m*")))] + \
+           [(d, 2) for d in sorted(glob.glob(os.path.join(SRC + "2", "C*", "m*")))]
+    for d, shift in dirs:
         pid, m = d.split("/")[-2:]
-        mid = f"{pid}-{m}"
+        mid = f"{pid}-m{int(m[1:]) + shift}"
         vpath = os.path.join(d, "verify.json")
         if not os.path.exists(vpath) or not os.path.exists(os.path.join(d, "patch.diff")):
             continue
@@ -82,6 +101,11 @@ def main():
             nv = len(re.findall(r"^VIOLATION", txt, re.M))
             det.append({"check": chk, "tier": "quick", "violations_reported": nv, "summary": last_line(log)[:200]})
         what, needs = NEEDS.get(mid, ("", ""))
+        if "passed" not in str(ver.get("pytest_patched")):
+            # not re-run here in time: the sub-agent's own run of the suite, quoted from its notes
+            m2 = re.search(r"(\d+ passed[^\n`]*)", open(os.path.join(d, "notes.md")).read()) \
+                if os.path.exists(os.path.join(d, "notes.md")) else None
+            ver["pytest_patched"] = f"not re-run here; sub-agent reported: {m2.group(1) if m2 else 'n/a'}"
         meta = {
             "id": mid, "breaks_property": pid, "what": what, "needs_to_manifest": needs,
             "verified_in_scratch_worktree": ver,
